@@ -111,7 +111,16 @@ def h_fit(h):
             h.distinct([rows[r][c] for r in range(N)], 0.01)
     perm = {"reverse": list(range(N))[::-1], "rotate": list(range(1, N)) + [0],
             "swap": [1, 0] + list(range(2, N))}[perm_kind]
-    fit_descs = lambda: [{"method": "mle"}] + [{"method": "wlsq", "weights": f"w{i}"} if i % 2 else None for i in range(1, nd)]
+    omit = h.cfg.get("fd") == "omit"
+    if omit:
+        # a description that omits the optional 'weights' key directly after one that sets it: the omitted key means
+        # None for that dimension, not the neighbour's value
+        fit_descs = lambda: [{"method": "mle", "weights": "w0"}] + [
+            ({"method": "wlsq"} if i % 2 else {"method": "mle", "weights": f"w{i}"}) for i in range(1, nd)]
+        want_opts = lambda i: ("mle", "w0") if i == 0 else (("wlsq", None) if i % 2 else ("mle", f"w{i}"))
+    else:
+        fit_descs = lambda: [{"method": "mle"}] + [{"method": "wlsq", "weights": f"w{i}"} if i % 2 else None for i in range(1, nd)]
+        want_opts = lambda i: ("mle", None) if i == 0 else (("wlsq", f"w{i}") if i % 2 else ("mle", None))
     def digest(run):
         """what was fitted to what, independent of row order"""
         out = []
@@ -119,7 +128,7 @@ def h_fit(h):
         calls = list(run["calls"])
         h.check(calls[0]["cls"] == "WeibullDistribution" and _names(calls[0]["data"]) == _names([r[0] for r in rows]),
                 "marginal-fitted-to-its-whole-column")
-        h.check(calls[0]["method"] == "mle" and calls[0]["weights"] is None, "own-fit-options-dimension-0")
+        h.check((calls[0]["method"], calls[0]["weights"]) == want_opts(0), "own-fit-options-dimension-0")
         pos = 1
         for i in range(1, nd):
             cd = m.distributions[i]
@@ -128,7 +137,7 @@ def h_fit(h):
             per = []
             for k in range(K):
                 c = calls[pos + k]
-                want_m, want_w = ("wlsq", f"w{i}") if i % 2 else ("mle", None)
+                want_m, want_w = want_opts(i)
                 h.check(c["method"] == want_m and c["weights"] == want_w, "fit-options-of-dimension-i-reach-dimension-i-only",
                         f"dim {i}: {c['method']}, {c['weights']}")
                 h.check(c["data"] is cd.data_intervals[k], "estimator-gets-the-interval-data")
@@ -305,3 +314,6 @@ def obligations(tier):
         for chain in ("chain", "star"):
             yield ("fit", h_fit, {"n_dim": 3, "slicer": kind, "chain": chain, "perm": "reverse",
                                   "rows": 3 if tier == "quick" else 4}, {"max_paths": 60000})
+    for nd_ in (2, 3):
+        yield ("fit", h_fit, {"n_dim": nd_, "slicer": "width", "chain": "chain", "perm": "swap", "rows": 3, "fd": "omit"},
+               {"max_paths": 60000})
